@@ -112,6 +112,10 @@ type RunLengthChunk struct {
 
 // Marshal ..
 func (r RunLengthChunk) Marshal() ([]byte, error) {
+	// 2-bit status symbol, 13-bit run length
+	if r.PacketStatusSymbol > TypeTCCPacketReceivedWithoutDelta || r.RunLength > 0x1FFF {
+		return nil, errFieldOutOfRange
+	}
 	chunk := make([]byte, 2)
 
 	// append 1 bit '0'
